@@ -138,7 +138,7 @@ static void mkdesc(char *out, size_t n, const names_t *N, int key, int e, int ci
     if (k >= n) k = n - 1;
     for (i = 0; i < N->n; i++)
     {
-        show_ent(tmp, 36, &POOL[N->idx[i]]);
+        show_ent(tmp, 42, &POOL[N->idx[i]]);
         k += (size_t) snprintf(out + k, n > k ? n - k : 0, "%s%s", i ? "," : "", tmp);
         if (k >= n) k = n - 1;
     }
